@@ -1,7 +1,7 @@
 (* C18: recorded defect classes - none left after the repairs. Definitions only. *)
 From Coq Require Import String Ascii.
 From Coq Require Import List Arith Bool.
-Require Import TT.Model.Str TT.Model.TypeParse TT.Model.Render TT.Model.C05Emit TT.Spec.C05Known TT.Spec.C18Spec.
+Require Import TT.Model.Str TT.Model.TypeParse TT.Model.Render TT.Model.C05Emit TT.Spec.C05Spec TT.Spec.C05Known TT.Spec.C18Spec.
 Require Import TT.Proofs.TypeParseProofs.
 Import ListNotations.
 
@@ -9,3 +9,18 @@ Import ListNotations.
    or Result) were repaired by C05-4-prefix-composite and C05-2-3-top-level-commas: no class is left,
    the theorems of Properties/C18.v carry no class premise any more. *)
 Definition kf_C18 (s : site) (md : mode) (m : mapping) (t : rty) : bool := false.
+
+(* ---- the oracle of C18: relational clause AND absolute clause ----
+   relational (Spec/C18Spec.c18_ok): the text with the table is the text without it with N replaced
+   by M (byte equality when the type mentions no key) - "and nothing else";
+   absolute: the text with the table denotes the README shape in which every mapped name, at every
+   constructor position INCLUDING MAP KEYS, is its target (Spec/C05Spec.expected s m t: rshape m, read
+   back through the TypeScript parser / the Zod reading) - "everywhere". The relational clause alone
+   cannot see a defect that the unmapped run shares (a custom map key printed as string in both
+   runs). The absolute clause is applied inside the documented language (dom_m) and outside the
+   remaining defect classes of C05 (union under [], unqualified names inside Record/tuple at
+   return/event sites, Zod optional/set/result), which are C05's findings, not C18's. *)
+Definition c18_abs_ok (s : site) (md : mode) (m : mapping) (t : rty) (with_text : str) : bool :=
+  negb (dom_m m t) || kf_C05 s md m t || c05_ok s md m t with_text.
+Definition c18_full_ok (s : site) (md : mode) (m : mapping) (t : rty) (with_text without_text : str) : bool :=
+  c18_ok (site_is_type s md) m t with_text without_text && c18_abs_ok s md m t with_text.
